@@ -5,7 +5,8 @@ from __future__ import annotations
 import ast
 
 from ..astutil import (
-    call_name, calls_in, dotted, enclosing_stmt, guard_atoms, lexical_guards, raised_name, unparse, walk_local,
+    call_name, calls_in, dotted, enclosing_stmt, guard_atoms, lexical_guards, name_stores, own_exprs, raised_name, unparse,
+    walk_local,
 )
 from ..report import Registry, sub
 from ._helpers_rules_b import (
@@ -207,22 +208,96 @@ def r2(ctx):
               f"(raise under `not {O}`: {ok_raise}; yield dominated by non-empty `{O}`: {nonempty})",
               f"`if not {O}: raise CircularDependencyError`; yield only when `{O}` is non-empty",
               f"{f.module.path}:{w.lineno}")
-    # (e) the error carries find_cycles(pairs, items)
-    carried = False
+    # (e) the error carries find_cycles(pairs, items): the value of the `cycles` argument is followed through
+    # local bindings and one level of module-local helper, the inputs through materialising copies
+    carried, why = False, "no CircularDependencyError raise in the round loop"
     for r in raises:
-        for c in calls_in(r):
-            if (call_name(c) or "").rsplit(".", 1)[-1] == "find_cycles":
-                args = [unparse(a) for a in c.args]
-                carried = args == [tuples_p, items_p]
-                # it must be the 2nd positional argument (`cycles`) of the exception
-                exc_call = r.exc if isinstance(r.exc, ast.Call) else None
-                carried = carried and exc_call is not None and (
-                    (len(exc_call.args) >= 2 and exc_call.args[1] is c)
-                    or any(k.arg == "cycles" and k.value is c for k in exc_call.keywords)
-                )
+        exc_call = r.exc if isinstance(r.exc, ast.Call) else None
+        if exc_call is None:
+            why = "the exception is not constructed in the raise statement"
+            continue
+        cyc = exc_call.args[1] if len(exc_call.args) >= 2 else next((k.value for k in exc_call.keywords if k.arg == "cycles"), None)
+        if cyc is None:
+            why = "no `cycles` argument"
+            continue
+        carried, why = _carries_find_cycles(ctx, f, cyc, r, tuples_p, items_p)
     ctx.check(carried, base + ":raise-carries-find-cycles",
-              "CircularDependencyError is not raised with cycles=find_cycles(<pairs>, <items>)",
-              f"cycles=find_cycles({tuples_p}, {items_p})", f.loc)
+              f"CircularDependencyError is not raised with cycles=find_cycles(<pairs>, <items>) over the inputs of the "
+              f"failed sort: {why}",
+              f"cycles=find_cycles({tuples_p}, {items_p}) ({why})", f.loc)
+
+
+_MATERIALISE = ("list", "tuple", "set", "frozenset", "sorted")
+
+
+def _same_input(ctx, f, expr, param, at, depth=0, expanding=frozenset()):
+    """`expr` evaluates to the collection the caller passed as `param` (the name itself, a materialised copy
+    of it, or a local bound to one of those)."""
+    if depth > 6:
+        return False
+    if isinstance(expr, ast.Call) and call_name(expr) in _MATERIALISE and len(expr.args) == 1 and not expr.keywords:
+        return _same_input(ctx, f, expr.args[0], param, at, depth + 1, expanding)
+    if isinstance(expr, ast.Name):
+        if expr.id in expanding:
+            return expr.id == param
+        binds = [(v, st) for n, v, st in name_stores(f.node) if n == expr.id]
+        if expr.id != param and not binds:
+            return False
+        # (a rebinding of the parameter itself is allowed only to a copy of itself)
+        return all(v is not None and _same_input(ctx, f, v, param, st, depth + 1, expanding | {expr.id}) for v, st in binds)
+    return False
+
+
+def _carries_find_cycles(ctx, f, expr, at, tuples_p, items_p, depth=0):
+    """(ok, why): `expr` is find_cycles(<pairs>, <items>) over this function's inputs."""
+    if depth > 3:
+        return False, "binding chain too deep"
+    if isinstance(expr, ast.Name):
+        binds = [(v, st) for n, v, st in name_stores(f.node) if n == expr.id]
+        if not binds:
+            return False, f"`{expr.id}` is not bound in {f.name}"
+        for v, st in binds:
+            if v is None:
+                return False, f"`{expr.id}` is bound by a loop/with target"
+            ok, why = _carries_find_cycles(ctx, f, v, st, tuples_p, items_p, depth + 1)
+            if not ok:
+                return False, why
+        return True, f"through local `{expr.id}`"
+    if not isinstance(expr, ast.Call):
+        return False, f"`{unparse(expr)[:60]}` is not a call of find_cycles"
+    nm = (call_name(expr) or "").rsplit(".", 1)[-1]
+    if nm == "find_cycles":
+        fc = ctx.func(f"{TOPO}::find_cycles")
+        a0, a1 = arg_for(expr, fc, fc.params[0]), arg_for(expr, fc, fc.params[1])
+        if a0 is None or a1 is None:
+            return False, "find_cycles called without (pairs, items)"
+        if not _same_input(ctx, f, a0, tuples_p, at):
+            return False, f"find_cycles receives `{unparse(a0)[:50]}` instead of the dependency pairs `{tuples_p}`"
+        if not _same_input(ctx, f, a1, items_p, at):
+            return False, f"find_cycles receives `{unparse(a1)[:50]}` instead of the items `{items_p}`"
+        return True, "direct call"
+    # one level of module-local helper: every return of the helper is find_cycles over its own parameters,
+    # which are bound to the inputs at the call
+    helper = ctx.index.resolve(f.module, call_name(expr) or "")
+    if helper is None or not hasattr(helper, "params") or getattr(helper, "module", None) is not f.module:
+        return False, f"cycles come from `{unparse(expr.func)}(..)`, not from find_cycles"
+    ctx.functions_analysed.add(helper.key)
+    rets = [r for r in walk_local(helper.node) if isinstance(r, ast.Return)]
+    if not rets:
+        return False, f"helper {helper.name} returns nothing"
+    fc = ctx.func(f"{TOPO}::find_cycles")
+    for r in rets:
+        c = r.value
+        if not (isinstance(c, ast.Call) and (call_name(c) or "").rsplit(".", 1)[-1] == "find_cycles"):
+            return False, (f"cycles come from {helper.name}(), which computes them itself "
+                           f"(`return {unparse(c)[:50] if c is not None else ''}`) instead of calling find_cycles")
+        for hp, want in ((arg_for(c, fc, fc.params[0]), tuples_p), (arg_for(c, fc, fc.params[1]), items_p)):
+            if not (isinstance(hp, ast.Name) and hp.id in helper.params):
+                return False, f"{helper.name}() does not hand its own parameters to find_cycles"
+            actual = arg_for(expr, helper, hp.id)
+            if actual is None or not _same_input(ctx, f, actual, want, at):
+                return False, f"{helper.name}() is not called with `{want}` for `{hp.id}`"
+    return True, f"through helper {helper.name}()"
 
 
 @R.rule("C19-R3", floor=17, template="T-SIBLING/T-FLOW",
@@ -278,6 +353,240 @@ def r3(ctx):
         judge(key, f, a, f"{f.module.path}:{c.lineno}", 0)
 
 
+# ------------------------------------------------------------------ R4: single-pass discipline
+ONE_SHOT_ANNOTATIONS = ("Iterable", "Iterator", "Generator", "AsyncIterable", "AsyncIterator")
+ITERABLE_ANNOTATIONS = ("Collection", "Sequence", "Set", "FrozenSet", "List", "Tuple", "AbstractSet", "MutableSet",
+                        "MutableSequence", "Container")
+_NO_TRAVERSAL = ("isinstance", "id", "type", "callable", "len", "bool", "repr")
+_COLLECTION_CALLS = ("list", "tuple", "set", "frozenset", "sorted", "dict", "OrderedSet", "IdentitySet", "OrderedDict")
+_COLLECTION_METHODS = ("union", "difference", "intersection", "symmetric_difference", "copy", "values", "keys",
+                       "items", "split", "splitlines")
+_ONE_SHOT_CALLS = ("zip", "map", "filter", "iter", "reversed", "enumerate", "chain", "from_iterable", "islice",
+                   "product", "permutations", "combinations", "starmap", "takewhile", "dropwhile", "groupby", "zip_longest")
+
+
+def _annotation_head(a: ast.arg):
+    if a.annotation is None:
+        return None
+    t = unparse(a.annotation).strip("'\"")
+    return t.split("[", 1)[0].rsplit(".", 1)[-1]
+
+
+class _Traversals:
+    """How often (0, 1, 2 = more than once) a function may traverse the object its caller passed for a
+    parameter, on some path, before rebinding the name to a materialised copy."""
+
+    def __init__(self, ctx):
+        self.ctx = ctx
+        self.memo = {}
+
+    def _weight(self, fn, occ, pm, active):
+        """traversals caused by one Load occurrence of the parameter"""
+        par = pm.get(occ)
+        # evaluated repeatedly inside a comprehension (anywhere but the first iterable)?
+        node, repeated = occ, False
+        for anc in _ancestors(pm, occ):
+            if isinstance(anc, (ast.ListComp, ast.SetComp, ast.GeneratorExp, ast.DictComp)):
+                first_iter = anc.generators[0].iter
+                if not any(x is node for x in ast.walk(first_iter)):
+                    repeated = True
+            if isinstance(anc, ast.stmt):
+                break
+        if isinstance(par, ast.Compare) and all(isinstance(o, (ast.Is, ast.IsNot)) for o in par.ops):
+            return 0, "identity test"
+        if isinstance(par, (ast.If, ast.While, ast.IfExp)) and par.test is occ:
+            return 0, "truth test"
+        if isinstance(par, ast.UnaryOp) and isinstance(par.op, ast.Not):
+            return 0, "truth test"
+        if isinstance(par, ast.BoolOp):
+            return 0, "truth test"
+        w, how = 1, "traversed"
+        if isinstance(par, ast.Call) and any(a is occ for a in par.args) or \
+                isinstance(par, ast.keyword) and isinstance(pm.get(par), ast.Call):
+            call = par if isinstance(par, ast.Call) else pm.get(par)
+            nm = call_name(call) or ""
+            if nm in _NO_TRAVERSAL:
+                return 0, f"{nm}() does not traverse"
+            callee = self.ctx.index.resolve(fn.module, nm) if nm and "()" not in nm else None
+            if callee is not None and hasattr(callee, "params") and hasattr(callee, "node"):
+                q = None
+                for cand in callee.params:
+                    if arg_for(call, callee, cand) is occ:
+                        q = cand
+                if q is not None:
+                    w, _ = self.count(callee, q, active)
+                    how = f"{callee.name}() traverses its `{q}` {['never', 'once', 'more than once'][w]}"
+        if repeated and w:
+            return 2, how + " (re-evaluated for every element of an enclosing comprehension)"
+        return w, how
+
+    def count(self, fn, p, active=()):
+        key = (fn.key, p)
+        if key in self.memo:
+            return self.memo[key]
+        if key in active:
+            return 1, ["recursive"]
+        active = active + (key,)
+        self.ctx.functions_analysed.add(fn.key)
+        g = self.ctx.cfg(fn)
+        pm = fn.module.parents()
+        users, kills = [], set()
+        for n in g.nodes:
+            st = n.stmt
+            if st is None or not isinstance(st, ast.stmt) or n.kind in ("with_exit", "join"):
+                continue
+            tot, hows = 0, []
+            for part in own_exprs(st):
+                for x in ast.walk(part):
+                    if isinstance(x, ast.Name) and x.id == p and isinstance(x.ctx, ast.Load):
+                        w, how = self._weight(fn, x, pm, active)
+                        tot += w
+                        if w:
+                            hows.append(how)
+            if tot:
+                users.append((n.id, tot, f"line {getattr(st, 'lineno', '?')}: `{unparse(own_exprs(st)[0])[:70]}` ({'; '.join(hows)})"))
+            if isinstance(st, (ast.Assign, ast.AnnAssign)) and st.value is not None:
+                tg = st.targets if isinstance(st, ast.Assign) else [st.target]
+                if any(isinstance(t, ast.Name) and t.id == p for t in tg) and _is_collection_expr(st.value):
+                    kills.add(n.id)   # from here on the name is a materialised collection
+        # only uses that can still see the caller's object count: reachable from the entry without passing a
+        # rebinding of the name to a materialised copy (the copy statement itself traverses the original once)
+        live = g.reachable([g.entry], avoid=kills)
+        first_kills = {k for k in kills if any(k == b for a_ in live for b, _ in g.succ[a_])}
+        users = [u for u in users if u[0] in live or u[0] in first_kills]
+        res = (0, [])
+        for a, wa, da in users:
+            if wa >= 2:
+                res = (2, [da])
+                break
+        if res[0] == 0 and users:
+            res = (1, [users[0][2]])
+            for a, wa, da in users:
+                if a in kills:
+                    continue
+                is_for_iter = g.nodes[a].kind == "for"
+                reach = g.reachable([a], avoid=kills - {a}, include_starts=False,
+                                    edge_ok=(lambda x, y, lab, a=a: not (y == a and lab == "loop")) if is_for_iter else None)
+                hit = [(b, db) for b, wb, db in users if b in reach]
+                if hit:
+                    res = (2, [da, hit[0][1]])
+                    break
+        self.memo[key] = res
+        return res
+
+
+def _ancestors(pm, node):
+    cur = pm.get(node)
+    while cur is not None:
+        yield cur
+        cur = pm.get(cur)
+
+
+def _is_collection_expr(e) -> bool:
+    if isinstance(e, (ast.List, ast.Tuple, ast.Set, ast.Dict, ast.ListComp, ast.SetComp, ast.DictComp, ast.Constant)):
+        return True
+    if isinstance(e, ast.Call):
+        nm = (call_name(e) or "").rsplit(".", 1)[-1]
+        if isinstance(e.func, ast.Name) and nm in _COLLECTION_CALLS:
+            return True
+        if isinstance(e.func, ast.Attribute) and (nm in _COLLECTION_METHODS or nm in _COLLECTION_CALLS):
+            return True
+    if isinstance(e, ast.BinOp) and isinstance(e.op, (ast.Add, ast.BitOr, ast.BitAnd, ast.Sub)):
+        return _is_collection_expr(e.left) or _is_collection_expr(e.right)
+    return False
+
+
+def _one_shot(ctx, fn, e, depth=0):
+    """'one-shot' (why) | 'collection' | None (not classified) for an argument expression."""
+    if depth > 4:
+        return None, ""
+    if isinstance(e, ast.GeneratorExp):
+        return "one-shot", "a generator expression"
+    if _is_collection_expr(e):
+        return "collection", unparse(e)[:40]
+    if isinstance(e, ast.Call):
+        nm = call_name(e) or ""
+        last = nm.rsplit(".", 1)[-1]
+        if last in _ONE_SHOT_CALLS and (isinstance(e.func, ast.Name) or nm.startswith("itertools.")):
+            return "one-shot", f"the iterator returned by {nm}()"
+        callee = ctx.index.resolve(fn.module, nm) if nm and "()" not in nm else None
+        if callee is not None and hasattr(callee, "node") and isinstance(callee.node, (ast.FunctionDef, ast.AsyncFunctionDef)):
+            if any(isinstance(x, (ast.Yield, ast.YieldFrom)) for x in walk_local(callee.node)):
+                return "one-shot", f"the generator returned by {callee.name}()"
+        return None, ""
+    if isinstance(e, ast.Name):
+        if e.id in fn.params:
+            return None, f"parameter `{e.id}`"
+        from ..astutil import name_stores
+        binds = [v for n, v, st in name_stores(fn.node) if n == e.id]
+        kinds = [_one_shot(ctx, fn, v, depth + 1) for v in binds if v is not None]
+        for k, why in kinds:
+            if k == "one-shot":
+                return k, f"`{e.id}` bound to {why}"
+        if kinds and all(k == "collection" for k, _ in kinds) and len(kinds) == len(binds):
+            return "collection", f"`{e.id}` (local collection)"
+        return None, ""
+    return None, ""
+
+
+@R.rule("C19-R4", floor=22, template="T-PATH/T-SIBLING",
+        desc="single-pass discipline: a parameter of util/topological.py annotated Iterable/Iterator is traversed at "
+             "most once on every path (or materialised first); where a function traverses an argument more than "
+             "once, no call site in the package passes a one-shot iterator (generator expression, zip/map/iter..)")
+def r4(ctx):
+    m = ctx.index.module(TOPO)
+    tr = _Traversals(ctx)
+    funcs = [f for f in ctx.index.all_functions(m) if f.cls is None and not f.type_only]
+    ctx.require(funcs, "no functions in util/topological.py")
+    multi = {}
+    for f in funcs:
+        a = f.node.args
+        for arg in a.posonlyargs + a.args + a.kwonlyargs:
+            n, wit = tr.count(f, arg.arg)
+            if n >= 2:
+                multi[(f.key, arg.arg)] = wit
+            head = _annotation_head(arg)
+            if head in ONE_SHOT_ANNOTATIONS:
+                ctx.check(n <= 1, f"{f.key}:single-pass({arg.arg})",
+                          f"parameter `{arg.arg}` is declared {head}[..] (may be a one-shot iterator: zip(), a generator) but "
+                          f"{f.name} traverses it more than once; the second traversal of an iterator is empty, so the "
+                          f"result silently ignores the input: " + " THEN ".join(wit),
+                          f"`{arg.arg}`: {head}, traversed {['never', 'once'][min(n, 1)]}", f.loc, wit)
+    # call sites of the public functions: an argument that is traversed more than once must be re-iterable
+    sites = []
+    for f in funcs:
+        if f.name.startswith("_"):
+            continue
+        for cf, c in call_sites(ctx.index, f):
+            if cf.module is m:
+                continue   # delegation inside the module is part of the traversal count above
+            sites.append((cf, c, f))
+    sites.sort(key=lambda s: (s[0].module.relpath, s[1].lineno, s[1].col_offset))
+    ctx.require(sites, "no call sites of util/topological.py functions in the package")
+    judged = []
+    for cf, c, f in sites:
+        fa = f.node.args
+        for arg in fa.posonlyargs + fa.args + fa.kwonlyargs:
+            if _annotation_head(arg) not in ONE_SHOT_ANNOTATIONS + ITERABLE_ANNOTATIONS:
+                continue
+            a = arg_for(c, f, arg.arg)
+            if a is not None:
+                judged.append((cf, c, f, arg.arg, a))
+    for (cf, c, f, q, a), (key, _) in zip(judged, ordinal_keys(judged, lambda s: f"{s[0].key}:{s[2].name}({s[3]}):re-iterable")):
+        ctx.functions_analysed.add(cf.key)
+        k, why = _one_shot(ctx, cf, a)
+        loc = f"{cf.module.path}:{c.lineno}"
+        if (f.key, q) not in multi:
+            ctx.ok(key, f"{f.name} traverses its `{q}` at most once", nontrivial=False)
+        elif k == "one-shot":
+            ctx.violation(key, f"`{unparse(a)[:60]}` is {why}, but {f.name} traverses its `{q}` more than once "
+                               f"({' THEN '.join(multi[(f.key, q)])}): every traversal after the first sees nothing", loc)
+        elif k == "collection":
+            ctx.ok(key, f"`{unparse(a)[:50]}` is a collection ({why})")
+        else:
+            ctx.ok(key, f"`{unparse(a)[:50]}` not a syntactically one-shot iterator ({why or 'unclassified'})", nontrivial=False)
+
+
 # ---------------------------------------------------------------------- self-test battery
 # R1
 R.mutant("todo-from-set", TOPO,
@@ -313,6 +622,67 @@ R.mutant("cycles-not-carried", TOPO,
          sub("                find_cycles(tuples, allitems),\n", "                set(),\n"), "C19-R2")
 R.mutant("pending-starts-empty", TOPO,
          sub("    todo_set = set(allitems)\n", "    todo_set = set(tuples)\n"), "C19-R2")
+def _seed_cycles_from_remainder(src: str) -> str:
+    """essence of seeded change C19/1: `cycles` computed by a new helper over (edges, pending set)"""
+    from ..report import MutantNotApplicable
+    a = "                find_cycles(tuples, allitems),\n"
+    b = "\ndef _gen_edges("
+    if src.count(a) != 1 or src.count(b) != 1:
+        raise MutantNotApplicable("anchor text not found")
+    src = src.replace(a, "                _blocked(edges, todo_set),\n")
+    helper = (
+        "\ndef _blocked(edges, remaining):\n"
+        "    remaining = set(remaining)\n"
+        "    while True:\n"
+        "        waited_on = set()\n"
+        "        for node in remaining:\n"
+        "            waited_on.update(edges[node])\n"
+        "        leaves = remaining.difference(waited_on)\n"
+        "        if not leaves:\n"
+        "            return remaining\n"
+        "        remaining.difference_update(leaves)\n\n"
+    )
+    return src.replace(b, helper + b)
+
+
+def _benign_cycles_helper(src: str) -> str:
+    from ..report import MutantNotApplicable
+    a = "                find_cycles(tuples, allitems),\n"
+    b = "\ndef _gen_edges("
+    if src.count(a) != 1 or src.count(b) != 1:
+        raise MutantNotApplicable("anchor text not found")
+    src = src.replace(a, "                _cycles_of(allitems, tuples),\n")
+    return src.replace(b, "\ndef _cycles_of(items, pairs):\n    return find_cycles(pairs, items)\n\n" + b)
+
+
+R.mutant("cycles-from-new-helper-over-pending-set", TOPO, _seed_cycles_from_remainder, "C19-R2")
+R.mutant("cycles-of-pending-set-only", TOPO,
+         sub("                find_cycles(tuples, allitems),\n", "                set(todo_set),\n"), "C19-R2")
+R.mutant("benign-cycles-in-local", TOPO,
+         sub("        if not output:\n            raise CircularDependencyError(\n                \"Circular dependency detected.\",\n                find_cycles(tuples, allitems),\n",
+             "        if not output:\n            cyc = find_cycles(tuples, allitems)\n            raise CircularDependencyError(\n                \"Circular dependency detected.\",\n                cyc,\n"), None)
+R.mutant("benign-cycles-through-helper", TOPO, _benign_cycles_helper, None)
+R.mutant("benign-pairs-materialised-first", TOPO,
+         sub("    edges: DefaultDict[_T, Set[_T]] = util.defaultdict(set)\n    for parent, child in tuples:\n        edges[child].add(parent)\n",
+             "    tuples = list(tuples)\n    edges: DefaultDict[_T, Set[_T]] = util.defaultdict(set)\n    for parent, child in tuples:\n        edges[child].add(parent)\n"), None)
+# R4
+R.mutant("find-cycles-second-pass-over-pairs", TOPO,
+         sub("    nodes_to_test = set(edges)\n", "    nodes_to_test = set(edges).intersection(c for _, c in tuples)\n"), "C19-R4")
+R.mutant("find-cycles-pairs-traversed-per-node", TOPO,
+         sub("        todo = nodes_to_test.difference(stack)\n", "        todo = {p for p, _ in tuples}.difference(stack)\n"), "C19-R4")
+R.mutant("find-cycles-items-traversed-twice", TOPO,
+         sub("    nodes_to_test = set(edges)\n", "    nodes_to_test = set(edges).intersection(allitems)\n    isolated = set(allitems).difference(edges)\n"), "C19-R4")
+R.mutant("ddl-passes-generator-of-pairs", "sql/ddl.py",
+         sub("    try:\n        candidate_sort = list(\n            topological.sort(\n                fixed_dependencies.union(mutable_dependencies),\n",
+             "    try:\n        candidate_sort = list(\n            topological.sort(\n                (d for d in fixed_dependencies.union(mutable_dependencies)),\n"), "C19-R4")
+R.mutant("decl-base-passes-iterator", "orm/decl_base.py",
+         sub("        return list(topological.sort(tuples, classes_for_base))", "        return list(topological.sort(iter(tuples), classes_for_base))"), "C19-R4")
+R.mutant("benign-find-cycles-materialises-then-second-pass", TOPO,
+         sub("    for parent, child in tuples:\n        edges[parent].add(child)\n    nodes_to_test = set(edges)\n",
+             "    tuples = list(tuples)\n    for parent, child in tuples:\n        edges[parent].add(child)\n    nodes_to_test = set(edges).intersection(c for _, c in tuples)\n"), None)
+R.mutant("benign-find-cycles-identity-test", TOPO,
+         sub("    for parent, child in tuples:\n        edges[parent].add(child)\n    nodes_to_test = set(edges)\n",
+             "    if tuples is None:\n        return set()\n    for parent, child in tuples:\n        edges[parent].add(child)\n    nodes_to_test = set(edges)\n"), None)
 # R3
 R.mutant("uow-unsorted-actions", "orm/unitofwork.py",
          sub("        postsort_actions = sorted(\n            postsort_actions,\n            key=lambda item: item.sort_key,\n        )\n",
